@@ -27,8 +27,8 @@ import (
 
 func init() {
 	Register(&Rule{ID: "R-ORD-1", Props: []string{"C12", "C05", "C01"}, Floor: 30,
-		Doc:      "no map iteration (range over a map, sync.Map.Range callback) decides the order of data: loop bodies contain only key-addressed writes, deletes, integer counters, constant flags and pure calls; slices accumulated in map order are sorted before use or listed as feeding log lines / clean-up only",
-		Controls: []string{"CtlMapOrderAppend", "CtlSyncMapOrderAppend", "keysOf"},
+		Doc:      "no map iteration (range over a map, sync.Map.Range callback) decides the order of data: loop bodies contain only key-addressed writes, deletes, integer counters, constant flags and pure calls (a call of a function-typed parameter is pure when the enclosing function is only called statically and every call site passes a pure function, method expression or literal); slices accumulated in map order are sorted before use or listed as feeding log lines / clean-up only",
+		Controls: []string{"CtlMapOrderAppend", "CtlSyncMapOrderAppend", "keysOf", "CtlOrdEffectThroughFuncParam"},
 		Run:      ruleOrd1})
 }
 
@@ -74,6 +74,8 @@ type ordEngine struct {
 }
 
 func ruleOrd1(c *Ctx) {
+	start := len(c.Obs)
+	defer c.negControls(start, "OkOrdCountByPredicate")
 	e := &ordEngine{c: c, pure: map[*ssa.Function]bool{}, rangeLike: map[*ssa.Function]int{}, producers: map[*ssa.Function]string{}}
 	e.computePure()
 	e.findRangeLike()
@@ -709,39 +711,7 @@ func (e *ordEngine) computePure() {
 	for _, f := range fns {
 		e.pure[f] = true
 	}
-	impure := func(f *ssa.Function) bool {
-		for _, b := range f.Blocks {
-			for _, in := range b.Instrs {
-				switch x := in.(type) {
-				case *ssa.Store:
-					root := rootAlloc(x.Addr)
-					if root == nil && !localBase(x.Addr) {
-						// stores through pool objects just taken from a pool (value constructors) are local in effect
-						if fa, ok := x.Addr.(*ssa.FieldAddr); ok && isValueNamed(fa.X.Type(), "String", "Integer", "Float", "Datetime") {
-							continue
-						}
-						return true
-					}
-				case *ssa.MapUpdate:
-					if _, ok := x.Map.(*ssa.MakeMap); !ok {
-						if !localMap(x.Map) {
-							return true
-						}
-					}
-				case *ssa.Send, *ssa.Go:
-					return true
-				case ssa.CallInstruction:
-					if _, ok := x.Common().Value.(*ssa.Builtin); ok {
-						continue
-					}
-					if !e.callIsPure(x) {
-						return true
-					}
-				}
-			}
-		}
-		return false
-	}
+	impure := e.bodyImpure
 	for changed := true; changed; {
 		changed = false
 		for _, f := range fns {
@@ -751,6 +721,159 @@ func (e *ordEngine) computePure() {
 			}
 		}
 	}
+}
+
+// bodyImpure: f writes non-local memory, sends, starts a goroutine or calls something that is not pure.
+func (e *ordEngine) bodyImpure(f *ssa.Function) bool {
+	for _, b := range f.Blocks {
+		for _, in := range b.Instrs {
+			switch x := in.(type) {
+			case *ssa.Store:
+				root := rootAlloc(x.Addr)
+				if root == nil && !localBase(x.Addr) {
+					// stores through pool objects just taken from a pool (value constructors) are local in effect
+					if fa, ok := x.Addr.(*ssa.FieldAddr); ok && isValueNamed(fa.X.Type(), "String", "Integer", "Float", "Datetime") {
+						continue
+					}
+					return true
+				}
+			case *ssa.MapUpdate:
+				if _, ok := x.Map.(*ssa.MakeMap); !ok {
+					if !localMap(x.Map) {
+						return true
+					}
+				}
+			case *ssa.Send, *ssa.Go:
+				return true
+			case ssa.CallInstruction:
+				if _, ok := x.Common().Value.(*ssa.Builtin); ok {
+					continue
+				}
+				if !e.callIsPure(x) {
+					return true
+				}
+			}
+		}
+	}
+	return false
+}
+
+// funcValueIsPure: the function a function value denotes is pure. Source functions (and function
+// literals) are judged by computePure; the synthetic functions the compiler makes for a method
+// expression / method value (thunk, bound-method wrapper, promoted-method wrapper) are judged by
+// their own tiny body, i.e. by the method they forward to.
+func (e *ordEngine) funcValueIsPure(f *ssa.Function, depth int) bool {
+	if f == nil || depth > 4 {
+		return false
+	}
+	if pure, ok := e.pure[f]; ok {
+		return pure
+	}
+	if f.Synthetic != "" && f.Blocks != nil {
+		for _, b := range f.Blocks {
+			for _, in := range b.Instrs {
+				if call, ok := in.(ssa.CallInstruction); ok {
+					if _, isB := call.Common().Value.(*ssa.Builtin); isB {
+						continue
+					}
+					g := call.Common().StaticCallee()
+					if g == nil || call.Common().IsInvoke() {
+						return false
+					}
+					if !e.funcValueIsPure(g, depth+1) && !core.HasPrefixAny(e.c.P.FnRef(g), pureForeignPrefixes...) {
+						return false
+					}
+				}
+			}
+		}
+		return !e.bodyImpureIgnoringCalls(f)
+	}
+	return core.HasPrefixAny(e.c.P.FnRef(f), pureForeignPrefixes...)
+}
+
+// bodyImpureIgnoringCalls: the non-call part of bodyImpure (the calls of a synthetic wrapper are judged by funcValueIsPure).
+func (e *ordEngine) bodyImpureIgnoringCalls(f *ssa.Function) bool {
+	for _, b := range f.Blocks {
+		for _, in := range b.Instrs {
+			switch x := in.(type) {
+			case *ssa.Store:
+				if rootAlloc(x.Addr) == nil && !localBase(x.Addr) {
+					return true
+				}
+			case *ssa.MapUpdate:
+				if !localMap(x.Map) {
+					return true
+				}
+			case *ssa.Send, *ssa.Go:
+				return true
+			}
+		}
+	}
+	return false
+}
+
+// paramCallIsPure: the call `p(…)` of a function-typed parameter p of fn is pure when the set of
+// functions p can denote is closed and every member is pure: fn is only ever called statically
+// (every call-graph edge into it is a static call of fn itself), and at every such call site the
+// argument is a function, a method expression / method value, a function literal, or the caller's
+// own function-typed parameter (resolved the same way).
+func (e *ordEngine) paramCallIsPure(prm *ssa.Parameter, depth int) bool {
+	if depth > 3 {
+		return false
+	}
+	fn := prm.Parent()
+	if fn == nil {
+		return false
+	}
+	if _, ok := prm.Type().Underlying().(*types.Signature); !ok {
+		return false
+	}
+	idx := -1
+	for i, q := range fn.Params {
+		if q == prm {
+			idx = i
+		}
+	}
+	if idx < 0 {
+		return false
+	}
+	edges := e.c.P.RealCallers(fn)
+	if len(edges) == 0 {
+		return false
+	}
+	for _, ed := range edges {
+		if ed.Site == nil {
+			return false
+		}
+		com := ed.Site.Common()
+		if com.IsInvoke() || com.StaticCallee() != fn || idx >= len(com.Args) {
+			return false // fn is reached as a value / through an interface: the arguments are not enumerable
+		}
+		origins := core.Origins(com.Args[idx], false)
+		if len(origins) == 0 {
+			return false
+		}
+		for _, o := range origins {
+			switch x := o.(type) {
+			case *ssa.Function:
+				if !e.funcValueIsPure(x, 0) {
+					return false
+				}
+			case *ssa.MakeClosure:
+				g, _ := x.Fn.(*ssa.Function)
+				if !e.funcValueIsPure(g, 0) {
+					return false
+				}
+			case *ssa.Parameter:
+				if !e.paramCallIsPure(x, depth+1) {
+					return false
+				}
+			default:
+				return false
+			}
+		}
+	}
+	return true
 }
 
 func localMap(v ssa.Value) bool {
@@ -774,6 +897,9 @@ func (e *ordEngine) callIsPure(call ssa.CallInstruction) bool {
 	}
 	f := com.StaticCallee()
 	if f == nil {
+		if prm, ok := com.Value.(*ssa.Parameter); ok {
+			return e.paramCallIsPure(prm, 0)
+		}
 		return false
 	}
 	if pure, ok := e.pure[f]; ok {
